@@ -27,6 +27,9 @@ def check_case(case):
     import html5lib
     from html5lib import constants
     from html5lib.html5parser import ParseError
+    if case.get("kind") == "conforming":
+        from vf.gen import conforming
+        return conforming.check_no_errors(case)
     text, container, scripting = case["text"], case.get("container"), bool(case.get("scripting"))
     p = h5.parser("etree", True, strict=False)
     try:
